@@ -28,7 +28,9 @@ KINDS = ["dup-writer-same", "dup-writer-overlap-slice", "dup-writer-parent", "bl
          "const-to-child-wire", "const-to-child-outport", "const-to-grandchild-inport", "wire-to-child-outport", "read-grandchild-outport",
          "own-inport-from-own-wire",
          # two update blocks reach one writing @s.func helper (directly or through intermediate helpers)
-         "two-blocks-one-writing-func"]
+         "two-blocks-one-writing-func",
+         # two overlapping slices of one wire are sinks of the SAME net (the shared bits are driven twice by one writer)
+         "overlapping-sinks-in-one-net"]
 
 
 def plan(tier, seed):
@@ -237,6 +239,15 @@ def inject(rng, design, kind):
       newblk(cls, "zz_owb", "comb", [["=", ow, ["c", 1, None]]])
       cls["connects"].insert(rng.randrange(len(cls["connects"]) + 1), [{"path": "zz_oi", "steps": [], "lo": 0, "w": w}, ow])
       return d, {ST}, dict(info, port="zz_oi")
+    if kind == "overlapping-sinks-in-one-net":
+      w = rng.choice([8, 16]); k_ = rng.choice([2, 4])
+      a = rng.randrange(0, w - k_ - 1); b = rng.randrange(a + 1, min(a + k_, w - k_))      # [a:a+k) and [b:b+k) overlap
+      cls["signals"] += [{"name": "zz_os", "kind": "Wire", "type": k_, "list": None}, {"name": "zz_ob", "kind": "Wire", "type": w, "list": None}]
+      src = {"path": "zz_os", "steps": [], "lo": 0, "w": k_}
+      newblk(cls, "zz_osb", "comb", [["=", src, ["c", 1, None]]])
+      for lo in (a, b):
+        cls["connects"].insert(rng.randrange(len(cls["connects"]) + 1), [{"path": "zz_ob", "steps": [["s", lo, lo + k_]], "lo": lo, "w": k_}, src])
+      return d, {MW}, dict(info, slices=[[a, a + k_], [b, b + k_]])
     if kind == "two-blocks-one-writing-func":
       w = rng.choice([1, 4, 8])
       cls["signals"].append({"name": "zz_fw", "kind": "Wire", "type": w, "list": None})
@@ -332,6 +343,29 @@ def run_shard(sh):
                                [{"path": "zz_ovr", "steps": [], "lo": 0, "w": e - c}, {"path": "zz_ov", "steps": [["s", c, e]], "lo": c, "w": e - c}])
         sh.count("legal_same_block_overlap_read_by_net")
       sh.count("legal_same_block_overlap"); sh.count("legal_same_block_overlap_variant%d" % variant)
+    if rng.random() < 0.4:
+      # still defect-free: one block writes a whole struct wire and then overrides a part TWO levels below it (a field of a
+      # nested struct, or a slice of a field); a net reads a sibling part under the same intermediate node
+      cls = base["classes"][rng.choice(base["order"])]
+      base["types"].setdefault("ZZI", [["f", 4], ["g", 4]])
+      base["types"].setdefault("ZZO", [["inner", ["struct", "ZZI"]], ["a", 8]])
+      ZZO = ["struct", "ZZO"]
+      cls["signals"] += [{"name": "zz_ssrc", "kind": "InPort" if cls["name"] != base["top"] else "Wire", "type": ZZO, "list": None},
+                         {"name": "zz_sw", "kind": "Wire", "type": ZZO, "list": None}, {"name": "zz_sr", "kind": "Wire", "type": 4, "list": None}]
+      whole = {"path": "zz_sw", "steps": [], "lo": 0, "w": 16}
+      srcw = {"path": "zz_ssrc", "steps": [], "lo": 0, "w": 16}
+      if rng.random() < 0.5:
+        part = {"path": "zz_sw", "steps": [["f", "inner"], ["f", "f"]], "lo": 12, "w": 4}
+        rd = {"path": "zz_sw", "steps": [["f", "inner"], ["f", "g"]], "lo": 8, "w": 4}
+      else:
+        part = {"path": "zz_sw", "steps": [["f", "a"], ["s", 0, 2]], "lo": 0, "w": 2}
+        rd = {"path": "zz_sw", "steps": [["f", "a"], ["s", 2, 6]], "lo": 2, "w": 4}
+      stmts = [["=", whole, ["rd", srcw]], ["=", part, ["c", 1, None]]]
+      cls["blocks"].append({"name": "zz_swb", "kind": "comb", "stmts": stmts})
+      if cls["name"] == base["top"]:
+        cls["blocks"].append({"name": "zz_ssb", "kind": "comb", "stmts": [["=", srcw, ["rd", srcw]]]})   # the top has no free inputs to spare: hold
+      cls["connects"].insert(rng.randrange(len(cls["connects"]) + 1), [{"path": "zz_sr", "steps": [], "lo": 0, "w": 4}, rd])
+      sh.count("legal_whole_struct_plus_deep_part")
     # legal base: must elaborate in every order
     for perm in range(sh.params["orders"]):
       oc, src, msg = outcome(base, rng, perm)
